@@ -201,6 +201,43 @@ RS_TESTS = [
     (r"inline and \(not REGEX_DIRECTIVE_START\.match\(rendered\)\)", "(inline && negb (o_is_directive_start orc rendered))"),
 ]
 
+# ------------------------------------------------------------------ the tail of MockIncludeDirective.run
+# try: include_log.append(key); ...; nested_render_text(...)  finally: include_log.pop(); ...
+TAIL_RULES = [
+    (r"include_log\.append\(include_key\)", ("state", "set_shr (set_incl (s_incl (shr s) ++ [path]) (shr s)) s")),
+    (r"self\.renderer\.document\['source'\] = (?:str\(path\)|source)", ("skip",)),
+    (r"self\.renderer\.reporter\.source = (?:str\(path\)|rsource)", ("skip",)),
+    (r"self\.renderer\.reporter\.get_source_and_line = lambda li: \(str\(path\), li\)", ("skip",)),
+    (r"root_dir = Path\(include_log\[0\]\[0\]\)\.parent", ("skip",)),
+    (r"if 'relative-images' in self\.options:\n    self\.renderer\.md_env\['relative-images'\] = [^\n]*", ("skip",)),
+    (r"if 'relative-docs' in self\.options:\n    self\.renderer\.md_env\['relative-docs'\] = [^\n]*", ("skip",)),
+    (r"self\.renderer\.nested_render_text\(file_content, startline \+ 1, heading_offset=self\.options\.get\('heading-offset', 0\)\)",
+     ("bind", "s", "nested_render_text_src s file_content (startline + 1) false None heading_offset")),
+    (r"include_log\.pop\(\)", ("state", "set_shr (set_incl (removelast (s_incl (shr s))) (shr s)) s")),
+    (r"self\.renderer\.md_env\.pop\('relative-(?:images|docs)', None\)", ("skip",)),
+    (r"self\.renderer\.md_env\.update\(outer_relative\)", ("skip",)),
+    (r"if line_func is not None:\n    self\.renderer\.reporter\.get_source_and_line = line_func\nelse:\n"
+     r"    del self\.renderer\.reporter\.get_source_and_line", ("skip",)),
+]
+
+
+def gen_include_tail(mock) -> str:
+    from gen.c06_walk import canonicalise_by_value
+    from gen.c20_src import RUN_CANON
+    run = canonicalise_by_value(find_method(mock, "MockIncludeDirective", "run"), RUN_CANON)
+    tries = [x for x in run.body if isinstance(x, ast.Try) and x.finalbody and not x.handlers]
+    if len(tries) != 1 or "nested_render_text" not in ast.unparse(tries[0]):
+        raise Untranslatable("MockIncludeDirective.run: expected one top-level try/finally around nested_render_text")
+    after = run.body[run.body.index(tries[0]) + 1:]
+    if [ast.unparse(x) for x in after] != ["return []"]:
+        raise Untranslatable("MockIncludeDirective.run: `return []` expected after the try/finally")
+    w = Walker(TAIL_RULES, [])
+    return ("(* MockIncludeDirective.run: the try/finally around nested_render_text - the include chain (md_env['include_log'])\n"
+            "   is extended for the duration of the nested render and popped in `finally`; path = the resolved path *)\n"
+            "Definition include_tail_src (s : st env) (path file_content : str) (startline heading_offset : N) : res (st env) :=\n"
+            + w.block([tries[0]]) + ".\n\n")
+
+
 PREAMBLE = """(* GENERATED by gen/c06_src.py from myst_parser/mdit_to_docutils/base.py and myst_parser/mocking.py - do not edit *)
 From Coq Require Import List Arith NArith Bool.
 From MV Require Import Base.PyStr Base.Res Nest.Lines Nest.Split Nest.Nest.
@@ -301,6 +338,7 @@ def generate(repo: Path) -> str:
     out.append("(* MockState.nested_parse; lineno = self._lineno *)\n"
                "Definition nested_parse_src (lineno : N) (block : list str) (input_offset : nat) (node : Nest.node)\n"
                "    (match_titles : bool) (s : st env) : res (Nest.node * st env) :=\n" + w.block(list(fn.body)) + ".\n")
+    out.append("\n" + gen_include_tail(mock))
     out.append(STATIC_MID)
 
     fn = method(base, "DocutilsRenderer", "run_directive",
